@@ -363,3 +363,88 @@ Example tick_chain_example :
   data_calls s [OAccept 1; OFail; OAcceptAll] = [[2; 3; 4; 5]; [3; 4; 5]; [3; 4; 5]] /\
   t_wd (fst (data_iter s [OAccept 1])) = 2.
 Proof. vm_compute. repeat split. Qed.
+
+(* ================================================================================================================ *)
+(* The two submission loops as long-lived processes of the node (Model/ThrottleLoop.v)                              *)
+(* ================================================================================================================ *)
+(* Every theorem above quantifies over histories in which an item IHeaders sc / IData sc IS an iteration of a
+   submission loop.  In the node the iteration happens only if the loop goroutine is there: node/full.go spawns
+   HeaderSubmissionLoop and DataSubmissionLoop once per process, and the only `return` of either loop function is
+   the one behind <-ctx.Done() of the node's own context.  Model/ThrottleLoop.v makes "the goroutine is there" a
+   part of the state ([node]: the state + one flag per loop; a tick nobody serves does nothing; after an iteration
+   the loop goes round again iff [loop_goes_on] of what the iteration did; restart = both loops return, the new
+   process spawns both).  [nrun c xhist] runs an interleaved history on that node and reports, per item, whether
+   each goroutine is there after it.  The DA layer's answers are as before; the end of a script is the DA layer
+   answering "context canceled" (coreda.ErrContextCanceled — an ANSWER, e.g. of a DA node that is restarting; the
+   node's own context is alive), which ends that iteration with nil.
+   The harness runs a share of its cases (and a DA-outage stream) with the two REAL goroutines serving every tick
+   of the history — started once per process, parked between ticks — and Check/ThrottleCheck.v compares their being
+   there (tc_live) with [nrun] per item. *)
+From Verif Require Import Model.ThrottleLoop Proofs.ThrottleLoopProofs.
+
+(* Whatever happened — DA outages of any length and kind, iterations that gave up after 30 attempts, iterations
+   the DA layer answered with "context canceled", restarts, attempts interleaved under any schedule —, both loop
+   goroutines are there after every item of every history. *)
+Theorem C08_loops_never_return_full : forall (c : cfg) (xhist : list xitem),
+  Forall (fun o : nobs => snd o = (true, true)) (snd (nrun c xhist)) /\
+  n_hl (nfinal c xhist) = true /\ n_dl (nfinal c xhist) = true.
+Proof. exact c08l_loops_never_return. Qed.
+Print Assumptions C08_loops_never_return_full.
+
+(* … hence every tick of every history is served: the node with its long-lived loops runs exactly as
+   Model/ThrottleConc.v says (same final state, same observations), and all theorems above are theorems about it. *)
+Theorem C08_loop_processes_refine_full : forall (c : cfg) (xhist : list xitem),
+  n_s (nfinal c xhist) = xfinal c xhist /\ map fst (snd (nrun c xhist)) = snd (xrun c xhist).
+Proof. exact c08l_refines. Qed.
+Print Assumptions C08_loop_processes_refine_full.
+
+(* A tick request after any history is served, and it is the iteration of Model/Throttle.v. *)
+Theorem C08_tick_is_served_full : forall (c : cfg) (xhist : list xitem) (u : sub),
+  nsub_step (nfinal c xhist) u = (let '(s', o) := sub_step (xfinal c xhist) u in (mk_node s' true true, o)).
+Proof. exact c08l_tick_served. Qed.
+Print Assumptions C08_tick_is_served_full.
+
+(* No deadlock, on the node: after any interleaved history, every round (each loop gets a tick against a DA layer
+   that accepts — at once or after fewer than 30 failures —, then one production attempt under any schedule)
+   produces a block. *)
+Theorem C08_no_deadlock_loop_processes_full : forall (c : cfg) (rs : list xround) (xhist : list xitem), 1 <= c_init c ->
+  Forall xround_ok rs ->
+  t_height (n_s (nfinal c (xhist ++ flat_map xround_items rs))) = t_height (n_s (nfinal c xhist)) + N.of_nat (length rs).
+Proof. exact c08l_no_deadlock. Qed.
+Print Assumptions C08_no_deadlock_loop_processes_full.
+
+(* THE CODE SIDE of loop_goes_on.  One iteration of Manager.HeaderSubmissionLoop / Manager.DataSubmissionLoop,
+   translated from /repo's source on every run and evaluated by Model/GoLite.v (Check/GoLiteSubmitTick.v), in ALL
+   worlds (nothing pending, failing fetch, empty / non-empty list, submit…ToDA returning nil or an error): with the
+   node's context alive it ends in `continue` — the for loop goes round again —, and the loop function returns
+   only when the node's context is cancelled, having called nothing. *)
+From Verif Require Check.GoLiteSubmitTick Proofs.ThrottleLoopCodeProofs.
+Theorem C08_translated_loops_return_on_shutdown_only_full : forall w name,
+  name = ThrottleLoopCodeProofs.header_loop \/ name = ThrottleLoopCodeProofs.data_loop ->
+  (GoLiteSubmitTick.t_cancel w = true -> GoLiteSubmitTick.run_tick name w = Some ([], [])) /\
+  (GoLiteSubmitTick.t_cancel w = false -> exists calls, GoLiteSubmitTick.run_tick name w = Some (GoLiteSubmitTick.go_on, calls)).
+Proof. exact ThrottleLoopCodeProofs.translated_loops_return_on_shutdown_only. Qed.
+Print Assumptions C08_translated_loops_return_on_shutdown_only_full.
+
+(* non-vacuity: L = 2, two blocks committed, the DA layer is down: the header tick is answered failure, failure,
+   "context canceled", the data tick "context canceled" at once; production is refused (rightly: 2 blocks wait),
+   both goroutines are there; the outage ends, each loop gets its tick, production goes on. *)
+Example cancelled_answers_do_not_end_the_loops :
+  let c := mk_cfg 1 2 in
+  let h := map XI [IProduce false; IProduce true; IHeaders [OFail; OFail]; IData []; IProduce true] in
+  let n := nfinal c h in
+  t_height (n_s n) = 2 /\ refused c (n_s n) = true /\ num_waiting_blocks c (n_s n) = 2 /\
+  map snd (snd (nrun c h)) = repeat (true, true) 5 /\
+  let n' := nfinal c (h ++ map XI [IHeaders acc1; IData acc1; IProduce true]) in
+  t_height (n_s n') = 3 /\ num_waiting_blocks c (n_s n') = 1.
+Proof. vm_compute. repeat split. Qed.
+
+(* a tick nobody serves does nothing — what the theorems above exclude: with the header goroutine gone the header
+   watermark stays, and production stays refused although the DA layer accepts *)
+Example unserved_ticks_would_deadlock :
+  let c := mk_cfg 1 2 in
+  let s := xfinal c (map XI [IProduce false; IProduce true]) in
+  let n := mk_node s false true in
+  let n1 := fst (nstep c (fst (nstep c n (XI (IHeaders acc1)))) (XI (IData acc1))) in
+  snd (nsub_step n (SHeaders acc1)) = not_served /\ t_wh (n_s n1) = 0 /\ refused c (n_s n1) = true.
+Proof. vm_compute. repeat split. Qed.
